@@ -5,7 +5,7 @@ src/munged/{hash,replay,dec,cred}.c; theorems: lean/Munge/Props/C05.lean; corres
 property oracle: harness/h_hash.c (real hash.c, replay.c, dec.c, cred.c, base64.c under ASan/UBSan;
 whole requests go through the real dec_process_msg) against the Lean driver and a python set."""
 from ..vlib import leanlib
-from ..gen import g_hash, g_stages
+from ..gen import g_hash, g_stages, g_replayins
 from . import _replay_common as rc
 
 LEVEL = "proof"
@@ -80,6 +80,9 @@ def run(ctx):
     # enc_init translated: every credential gets fresh salt (and IV) - identical requests in one second give distinct credentials
     if g_stages.generate(ctx):
         leanlib.check_props(ctx, "C02Stages")
+    # replay_insert translated: the record is the first 16 MAC bytes and (time0 + ttl) mod 2^32
+    if g_replayins.generate(ctx):
+        leanlib.check_props(ctx, "C05Insert")
     failed = leanlib.check_props(ctx, "C05")
     drv, h = rc.build(ctx)
     if not drv or not h:
